@@ -62,6 +62,15 @@ def job_history(job):
                 say({"handle": len(handles) - 1})
             except OSError as e:
                 say({"error": "OSError"})
+        elif op == "recompile":
+            if step["handle"] >= len(handles):
+                say({"error": "no-handle"})
+                continue
+            try:
+                compiled.compile_net(handles[step["handle"]], save=step.get("path"))
+                say({"handle": step["handle"]})
+            except ValueError as e:
+                say({"error": "ValueError"})
         elif op == "call":
             if step["handle"] >= len(handles):
                 say({"error": "no-handle"})
